@@ -42,6 +42,7 @@ fn names_in(e: &crate::lang::Expr, out: &mut Vec<String>) {
         ToCur { e, .. } | ToZone { e, .. } | AsUnix { e, .. } | FromUnix { e, .. } => names_in(e, out),
         Between { a, b } => { names_in(a, out); names_in(b, out); }
         At { d, t } => { names_in(d, out); names_in(t, out); }
+        UnitOf { e, .. } => names_in(e, out),
     }
 }
 
